@@ -9,7 +9,12 @@
 #include <QDir>
 #include <QPointer>
 #include <set>
+#include <QElapsedTimer>
+#include <QTcpServer>
+#include <QTcpSocket>
+#include <QThread>
 #include <qhttpengine/filesystemhandler.h>
+#include <qhttpengine/proxyhandler.h>
 #include <qhttpengine/qobjecthandler.h>
 #include <qhttpengine/server.h>
 #include <qhttpengine/socket.h>
@@ -42,7 +47,38 @@ void runLife(const Scn &scn, Out &out)
 
     SlotObj slotObj; QStringList sink; slotObj.obs = &sink; slotObj.idx[0] = 0;
     Handler *handler;
-    if (kind == "slot") {
+    // kind proxy: the upstream is a server on loopback that accepts and never answers
+    QTcpServer upstream;
+    QList<QTcpSocket *> accepted;
+    if (kind == "proxy") upstream.listen(QHostAddress::LocalHost, 0);
+    auto turn = [&]() {
+        if (kind != "proxy") { eventTurn(); return; }
+        int quiet = 0;
+        QElapsedTimer timer; timer.start();
+        while (quiet < 4 && timer.elapsed() < 2000) {
+            int before = obs->size() + accepted.size();
+            QCoreApplication::processEvents(QEventLoop::AllEvents, 2);
+            QCoreApplication::sendPostedEvents(nullptr, QEvent::DeferredDelete);
+            while (upstream.hasPendingConnections()) accepted << upstream.nextPendingConnection();
+            if (obs->size() + accepted.size() == before) { ++quiet; QThread::msleep(2); } else quiet = 0;
+        }
+    };
+    if (kind == "proxy") {
+        // Qt creates process-wide helper objects the first time a real socket connects: do that once,
+        // outside the accounting
+        static bool warmed = false;
+        if (!warmed) {
+            warmed = true;
+            QTcpSocket probe;
+            probe.connectToHost(QHostAddress::LocalHost, upstream.serverPort());
+            probe.waitForConnected(1000);
+            for (int i = 0; i < 3; ++i) { QCoreApplication::processEvents(QEventLoop::AllEvents, 2); QThread::msleep(2); }
+            while (upstream.hasPendingConnections()) delete upstream.nextPendingConnection();
+            probe.abort();
+            for (int i = 0; i < 3; ++i) { QCoreApplication::processEvents(QEventLoop::AllEvents, 2); QThread::msleep(2); }
+        }
+        handler = new ProxyHandler(QHostAddress::LocalHost, upstream.serverPort());
+    } else if (kind == "slot") {
         QObjectHandler *h = new QObjectHandler;
         h->registerMethod("s", &slotObj, SLOT(s0(QHttpEngine::Socket*)), true);
         handler = h;
@@ -68,7 +104,7 @@ void runLife(const Scn &scn, Out &out)
         *obs << QString("e:%1").arg(k++);
         if (p[0] == "new") { if (!started && server) { started = true; sp->process(tcp); } }
         else if (p[0] == "feed") { if (tcp) tcp->feed(unhx(p[1])); }
-        else if (p[0] == "turn") eventTurn();
+        else if (p[0] == "turn") turn();
         else if (p[0] == "ackall") { if (tcp) tcp->ackAll(); }
         else if (p[0] == "ack") { if (tcp) tcp->ack(p[1].toLongLong()); }
         else if (p[0] == "peerclose") { if (tcp) tcp->peerClose(); }
@@ -77,7 +113,11 @@ void runLife(const Scn &scn, Out &out)
     // both sides closed, then quiescence
     if (tcp) { tcp->log = nullptr; tcp->peerClose(); }
     if (tcp) tcp->ackAll();
-    for (int i = 0; i < 4; ++i) eventTurn();
+    for (int i = 0; i < 4; ++i) turn();
+    // the harness's own end of the upstream connections is not a per-connection object of the library
+    foreach (QTcpSocket *a, accepted) delete a;
+    accepted.clear();
+    if (kind == "proxy") { upstream.close(); turn(); turn(); }
     if (!started && tcp) delete tcp.data();
     int leaked = int(live.size());
     QStringList classes;
